@@ -76,6 +76,55 @@ int ops_trav(int n, char **a) {
         free(out); free(dist);
         return 1;
     }
+    if (isop(op, "diskcheck") && n == 3) {
+        // the C05 statement evaluated in-process on one (possibly very large) disk: an independent breadth-first search
+        // whose only primitive is gridDisk(k = 1), against gridDisk, gridDiskDistances and gridDiskDistancesSafe.
+        // "ok <bfs cells> then per function: <err or 0> <distinct cells> <cells not in the bfs ball or with a wrong distance>
+        //  <bfs cells missing> <duplicates>"
+        H3Index h = pH(a[1]); int k = (int)pI(a[2]);
+        int64_t sz = 0; H3Error e = H3_EXPORT(maxGridDiskSize)(k, &sz);
+        if (e) { outErr(e); return 1; }
+        if (sz > 4000000) { printf("skip-too-large\n"); return 1; }
+        size_t cap = 16; while (cap < (size_t)sz * 3) cap <<= 1;
+        H3Index *hk = xbuf(cap, sizeof(H3Index)); int *hd = xbuf(cap, sizeof(int)); unsigned char *seen = xbuf(cap, 1);
+        H3Index *queue = xbuf((size_t)sz + 8, sizeof(H3Index));
+        #define SLOT(x, s) for (s = (size_t)(((x) * 0x9E3779B97F4A7C15ull) >> 20) & (cap - 1); hk[s] && hk[s] != (x); s = (s + 1) & (cap - 1)) {}
+        int64_t qh = 0, qt = 0, nb = 0; size_t sl; int overflow = 0;
+        if (H3_EXPORT(isValidCell)(h)) { SLOT(h, sl); hk[sl] = h; hd[sl] = 0; queue[qt++] = h; nb = 1; }
+        while (qh < qt) {
+            H3Index c = queue[qh++]; SLOT(c, sl); int d = hd[sl];
+            if (d >= k) continue;
+            H3Index n7[7] = {0};
+            if (H3_EXPORT(gridDisk)(c, 1, n7)) { overflow = 2; break; }
+            for (int i = 0; i < 7; i++) if (n7[i] && n7[i] != c) {
+                SLOT(n7[i], sl);
+                if (!hk[sl]) { if (qt >= sz + 8) { overflow = 1; break; } hk[sl] = n7[i]; hd[sl] = d + 1; queue[qt++] = n7[i]; nb++; }
+            }
+            if (overflow) break;
+        }
+        printf("ok %" PRId64 " %d", nb, overflow);
+        H3Index *out = xbuf((size_t)sz, sizeof(H3Index)); int *dist = xbuf((size_t)sz, sizeof(int));
+        // gridDiskDistancesSafe on its own is skipped for k > 200 (its depth-first search is the slow part, and it is
+        // what the other two fall back to wherever a pentagon is in reach)
+        for (int f = 0; f < (k > 200 ? 2 : 3); f++) {
+            memset(out, 0, (size_t)sz * sizeof(H3Index)); memset(dist, 0, (size_t)sz * sizeof(int)); memset(seen, 0, cap);
+            e = f == 0 ? H3_EXPORT(gridDisk)(h, k, out) : f == 1 ? H3_EXPORT(gridDiskDistances)(h, k, out, dist)
+                                                                    : H3_EXPORT(gridDiskDistancesSafe)(h, k, out, dist);
+            int64_t distinct = 0, wrong = 0, dups = 0;
+            if (!e) for (int64_t i = 0; i < sz; i++) if (out[i]) {
+                SLOT(out[i], sl);
+                if (!hk[sl]) { wrong++; continue; }
+                if (seen[sl]) { dups++; continue; }
+                seen[sl] = 1; distinct++;
+                if (f > 0 && dist[i] != hd[sl]) wrong++;
+            }
+            printf(" | %d %" PRId64 " %" PRId64 " %" PRId64 " %" PRId64, (int)e, distinct, wrong, e ? 0 : nb - distinct, dups);
+        }
+        printf("\n");
+        #undef SLOT
+        free(hk); free(hd); free(seen); free(queue); free(out); free(dist);
+        return 1;
+    }
     if (isop(op, "diskmap") && n == 3) {
         // gridDiskDistancesSafe with canonical output: (cell, distance) pairs sorted by cell, zero slots removed
         H3Index h = pH(a[1]); int k = (int)pI(a[2]);
